@@ -95,6 +95,20 @@ def ob(
     return deco
 
 
+def alias(new_name: str, old_name: str, note: str = "") -> None:
+    """Register an obligation of another property under this property's name as well: properties overlap, and a check must include
+    every mechanism whose failure breaks ITS property (the harness, bounds and replay are shared)."""
+    import copy
+
+    o = copy.copy(REGISTRY[old_name])
+    o.name = new_name
+    if note:
+        o.bounds = f"[shared with {old_name}] {note} - " + o.bounds
+    else:
+        o.bounds = f"[shared with {old_name}] " + o.bounds
+    REGISTRY[new_name] = o
+
+
 @dataclass
 class SmtResult:
     """Result of an E2/E3 obligation."""
